@@ -37,7 +37,8 @@ LEVEL_TEXT = ("Every generated history is executed against the real send_message
               ' Every case also runs under the dependency-free validation backend.'
               ' Also params in which the caller chose its own progress token (no callback) or put other members into _meta.'
               " Also a transport that accepts the request only after part or all of the caller's deadline has gone (the deadline counts from the call)."
-              " Also notifications whose params mention the pending request's id (a peer's notifications/cancelled naming it, a progress token equal to it).")
+              " Also notifications whose params mention the pending request's id (a peer's notifications/cancelled naming it, a progress token equal to it)."
+              ' Also matching error responses of other classes (-32001, -32000, -32603, -32002, an application-defined code).')
 LEVEL_NOTE = ("Trusted: the virtual-time loop (asyncio SelectorEventLoop subclass), anyio memory streams, "
               "the oracle in vf/props/c01.py. Schedules not generated are not covered.")
 ASSUMPTIONS = [
